@@ -60,6 +60,9 @@ P2_STRIP = {"polyseed": ["__CPROVER_file_local_polyseed_c_write_str"]}
 H("p2_layout", src="p_encode.c", tus=API_TUS, strip=P2_STRIP, flags=CAD + ["--unwind", "2050", "--object-bits", "12"], cap=600, rss=6.0)
 H("c17_len", src="p_encode.c", tus=API_TUS, strip=P2_STRIP, langdata=True, flags=CAD + ["--unwind", "2050", "--object-bits", "12"], cap=900, rss=8.0)
 
+H("v_vectors", src="v_vectors.c", tus=API_TUS + ["lang", "lang_en"], extra=["stubs/bsearch.c"],
+  flags=CAD + ["--unwind", "2050", "--object-bits", "13", "--max-field-sensitivity-array-size", "600"], cap=600, rss=3.0)
+
 PROPS = {}
 
 
@@ -90,13 +93,25 @@ def g_p1():
     return [I("p1_write", defs=["P1_OFF=0", "P1_SRC=34"]), I("p1_write", defs=["P1_OFF=23", "P1_SRC=34"])]
 
 
+def str_size():
+    """POLYSEED_STR_SIZE of the current tree (loop bounds of the string harnesses follow it)"""
+    import re
+    from . import core
+    try:
+        m = re.search(r"#define\s+POLYSEED_STR_SIZE\s+(\d+)", open(core.REPO + "/include/polyseed.h").read())
+        return int(m.group(1))
+    except Exception:
+        return 544
+
+
 def g_p3(tier, cfgs=("s",)):
     out = []
+    n = str_size()
     for c in cfgs:
         out += [I("p3_lazy", cfg=c, defs=["P3_LEN=48"], flags=UW(51), cap=120, rss=0.5),
-                I("p3_lazy", cfg=c, defs=["P3_PREFIX=340"], flags=UW(402), cap=240, rss=1.5)]
+                I("p3_lazy", cfg=c, defs=["P3_PREFIX_REL=20"], flags=UW(n + 45), cap=400, rss=2.5)]
         if tier == "thorough":
-            out.append(I("p3_lazy", cfg=c, flags=UW(402), cap=1200, rss=6.5))
+            out.append(I("p3_lazy", cfg=c, flags=UW(n + 45), cap=2400, rss=10.0))
     return out
 
 
@@ -215,7 +230,8 @@ def dedup(lst):
 
 
 def instances_for(pid, tier):
-    return dedup(PROPS[pid]["instances"](tier))
+    # the published-vector validation of spec + CBMC model runs with every property
+    return dedup(PROPS[pid]["instances"](tier) + [I("v_vectors")])
 
 
 def P(pid, instances, **kw):
